@@ -2,7 +2,7 @@
    then the clean-up and the exit status), lifted from the per-stripe theorems of StripeProofs.v. *)
 From Coq Require Import NArith ZArith List Bool Arith Lia.
 From Snap.Array Require Import ArrayDefs SyncProofsDefs.
-From Snap.Fix Require Import FixModel RepairProofs StripeProofs.
+From Snap.Fix Require Import FixModel RepairProofs StripeProofs FlagWalk.
 Import ListNotations.
 Local Opaque JBASE.
 
@@ -56,8 +56,34 @@ Record geom (bs : N) (c : content) (bm : nat) : Prop := {
   g_wf : forall p j f i b, slot_of c p j = SFile f i b ->
       (0 < block_len bs (cf_size f) i)%N /\ (N.of_nat i * bs + block_len bs (cf_size f) i <= cf_size f)%N;
   (* nothing is mapped beyond the allocated size *)
-  g_bm : forall p j f i b, slot_of c p j = SFile f i b -> p < bm
+  g_bm : forall p j f i b, slot_of c p j = SFile f i b -> p < bm;
+  (* the index of a mapped block is an index of the block list of the file *)
+  g_idx : forall p j f i b, slot_of c p j = SFile f i b -> i < length (cf_blocks f);
+  (* the last block of every mapped file is mapped too, and ends at the recorded size *)
+  g_last : forall p j f i b, slot_of c p j = SFile f i b ->
+      exists p' i' b', slot_of c p' j = SFile f i' b' /\ S i' = length (cf_blocks f)
+                       /\ (N.of_nat i' * bs + block_len bs (cf_size f) i' = cf_size f)%N
 }.
+
+Lemma get_fl_in (fl : flags) k f : NoDup (map fst fl) -> In (k, f) fl -> get_fl fl k = f.
+Proof.
+  unfold get_fl. induction fl as [|[k0 f0] t IH]; intros Hnd Hin; [contradiction|]. cbn [find fst].
+  cbn [map fst] in Hnd. apply NoDup_cons_iff in Hnd. destruct Hnd as [Hnin Hnd].
+  destruct Hin as [E|Hin].
+  - injection E as E1 E2. subst k0 f0. rewrite fkey_eqb_refl. reflexivity.
+  - destruct (fkey_eqb k0 k) eqn:E.
+    + apply fkey_eqb_eq in E. subst k0. exfalso. apply Hnin. apply in_map_iff. exists (k, f). auto.
+    + apply IH; assumption.
+Qed.
+
+
+(* the array holds what the content file records: every file that has blocks exists with its recorded size and every one of
+   its blocks is the recorded block (vs p = the recorded vector of stripe p); every parity row encodes the recorded vector *)
+Definition restored (nlev : nat) (c : content) (bm : nat) (vs : nat -> list bid) (fs : list (option fsdisk)) (par : parity) : Prop :=
+  length fs = length (c_disks c)
+  /\ (forall p j f i b, slot_of c p j = SFile f i b ->
+        exists g, fs_find fs j (cf_name f) = Some g /\ ff_size g = cf_size f /\ nth i (ff_blocks g) 0%N = vnth (vs p) j)
+  /\ (forall p l, p < bm -> l < nlev -> par_matches (vs p) (prow par p l) = true).
 
 Section Run.
   Variable hashf : bid -> N -> hval.
@@ -81,6 +107,46 @@ Section Run.
     destruct (nth j (c_disks c) None) as [d|]; [|discriminate]. destruct (slot_at d pos); try discriminate.
     rewrite (plain_not_excl nlev o j _ Hp). reflexivity.
   Qed.
+
+  (* fix: the file whose last block lies in this stripe is FINISHED after the step *)
+  Lemma fin_last o c fs0 s pos j f idx b :
+    plain nlev o -> co_fix o = true -> slot_of c pos j = SFile f idx b -> S idx = length (cf_blocks f) ->
+    fl_finished (get_fl (r_flags (stripe_step o c fs0 s pos)) (j, cf_name f)) = true.
+  Proof.
+    intros Hp Hf Hs Hl. unfold FixModel.stripe_step. cbv zeta.
+    match goal with |- context [fold_left (file_post o c pos) (seq 0 ?n) ?s2] => generalize s2 end. intro s2.
+    assert (Hj : j < length (c_disks c)).
+    { destruct (Nat.lt_ge_cases j (length (c_disks c))) as [H|H]; [exact H|]. rewrite slot_of_out in Hs by exact H. discriminate. }
+    replace (length (c_disks c)) with (j + S (length (c_disks c) - S j)) by lia.
+    rewrite seq_app, fold_left_app. cbn [seq fold_left plus].
+    set (st := fold_left (file_post o c pos) (seq 0 j) s2).
+    assert (X : fl_finished (get_fl (r_flags (file_post o c pos st j)) (j, cf_name f)) = true).
+    { unfold file_post. rewrite slot_of_nth in Hs. destruct (nth j (c_disks c) None) as [d|]; [|discriminate]. rewrite Hs.
+      rewrite <- Hl, Nat.eqb_refl. cbn [negb]. rewrite (plain_not_excl nlev o j _ Hp), (pl_synced nlev o Hp). cbn [orb andb]. rewrite Hf.
+      destruct (fl_damaged _); [cbn; rewrite get_set_same; reflexivity|]. destruct (negb (fl_fixed _)); [cbn; rewrite get_set_same; reflexivity|].
+      cbv zeta. match goal with |- context [match ?x with Some _ => _ | None => _ end] => destruct x end; [|cbn; rewrite get_set_same; reflexivity].
+      match goal with |- context [if ?b then _ else _] => destruct b end; cbn; rewrite get_set_same; reflexivity. }
+    pose proof (fold_R (Rfl c pos) (Rfl_trans c pos) (fun s => Rfl_eq c pos s s eq_refl) (file_post o c pos)
+                  (file_post_Rfl o c pos)
+                  (seq (S j) (length (c_disks c) - S j)) (file_post o c pos st j)) as [_ [M _]].
+    apply M. exact X.
+  Qed.
+
+  Lemma cleanup_noop o s : (forall k f, In (k, f) (r_flags s) -> fl_created f && negb (fl_finished f) = false) -> cleanup o s = s.
+  Proof.
+    intro H. unfold cleanup. destruct (co_fix o); [|reflexivity].
+    generalize (r_flags s) H. intro l. generalize s. induction l as [|[k f] t IH]; intros st Hl; [reflexivity|].
+    cbn [fold_left]. rewrite (Hl k f (or_introl eq_refl)). apply IH. intros k' f' Hin. apply (Hl k' f'). right. exact Hin.
+  Qed.
+
+  Lemma check_run_unfold o c par fs objs bm : c_blockmax c = bm ->
+    check_run hashf padz truncf bs nlev reduced newino now o c par fs objs (seq 0 bm)
+    = let s0 := mkRS fs [] par 0 0 0 [] 0%N in
+      let s1 := fold_left (fun s pos => if block_enabled nlev o c pos then stripe_step o c fs s pos else s) (seq 0 bm) s0 in
+      let s2 := fold_left (obj_step newino now o c) objs s1 in
+      let s3 := cleanup o s2 in
+      mkOut s3 (if co_fix o then negb (Nat.eqb (r_unrec s3) 0) else negb (Nat.eqb (r_err s3) 0) || negb (Nat.eqb (r_unrec s3) 0)).
+  Proof. intro H. unfold check_run. rewrite H. destruct bm; reflexivity. Qed.
 
   (* ---- the loop over the stripes, fix mode --------------------------------------------------------------------- *)
   Section FixLoop.
@@ -240,6 +306,148 @@ Section Run.
       induction k as [|k IH]; intro Hk; [apply rinv_0|].
       rewrite seq_S, fold_left_app. cbn [fold_left plus].
       rewrite (block_enabled_plain o c k Hplain (Hsyn k ltac:(lia))). apply rinv_step; [apply IH; lia | lia].
+    Qed.
+
+    (* ---- the flags: a file created by fix is FINISHED once the loop has passed its last block ------------------------ *)
+    Record finv (k : nat) (s : rstate) : Prop := {
+      fi_nd : NoDup (map fst (r_flags s));
+      fi_cr : forall key, fl_created (get_fl (r_flags s) key) = true ->
+              fl_finished (get_fl (r_flags s) key) = true
+              \/ exists p j f i b, k <= p /\ slot_of c p j = SFile f i b /\ key = (j, cf_name f) }.
+    Lemma finv_0 : finv 0 s0.
+    Proof. constructor; cbn; [constructor | intros key H; discriminate]. Qed.
+
+    Lemma finv_step k s : finv k s -> k < bm -> finv (S k) (stripe_step o c fs0 s k).
+    Proof.
+      intros [Hnd Hcr] Hk.
+      destruct (stripe_step_Rfl hashf padz truncf bs nlev reduced newino now o c k fs0 s) as [R1 [R2 [R3 _]]].
+      set (s' := stripe_step o c fs0 s k) in *.
+      assert (Hnew : forall j f i b, slot_of c k j = SFile f i b ->
+                fl_finished (get_fl (r_flags s') (j, cf_name f)) = true
+                \/ exists p j' f' i' b', S k <= p /\ slot_of c p j' = SFile f' i' b' /\ (j, cf_name f) = (j', cf_name f')).
+      { intros j f i b Hs. destruct (g_last bs c bm Hgeom k j f i b Hs) as [p' [i' [b' [Hs' [Hl _]]]]].
+        destruct (lt_eq_lt_dec p' k) as [[Hlt|Heq]|Hgt].
+        - exfalso. destruct (g_same bs c bm Hgeom p' k j f i' b' f i b Hs' Hs eq_refl) as [_ H]. specialize (H Hlt).
+          pose proof (g_idx bs c bm Hgeom k j f i b Hs). lia.
+        - subst p'. left. rewrite Hs in Hs'. injection Hs' as E1 E2. subst i' b'. apply (fin_last o c fs0 s k j f i b Hplain Hfix Hs Hl).
+        - right. exists p', j, f, i', b'. repeat split; auto. }
+      constructor; [apply R1; exact Hnd|].
+      intros key H. destruct (R3 key H) as [H'|[f [i [b [Hs En]]]]].
+      - destruct (Hcr key H') as [Hfin|[p [j [f [i [b [Hp [Hs Ek]]]]]]]].
+        + left. apply R2. exact Hfin.
+        + destruct (Nat.eq_dec p k) as [E|E].
+          * subst p key. apply (Hnew j f i b Hs).
+          * right. exists p, j, f, i, b. repeat split; auto. lia.
+      - destruct key as [j n]. cbn [fst snd] in Hs, En. subst n. apply (Hnew j f i b Hs).
+    Qed.
+
+    Lemma finv_loop : forall k, k <= bm ->
+      finv k (fold_left (fun s pos => if block_enabled nlev o c pos then stripe_step o c fs0 s pos else s) (seq 0 k) s0).
+    Proof.
+      induction k as [|k IH]; intro Hk; [apply finv_0|].
+      rewrite seq_S, fold_left_app. cbn [fold_left plus].
+      rewrite (block_enabled_plain o c k Hplain (Hsyn k ltac:(lia))). apply finv_step; [apply IH; lia | lia].
+    Qed.
+
+    (* ---- the empty files, links and dirs ---------------------------------------------------------------------------- *)
+    Lemma obj_step_frame s ob :
+      let s' := obj_step newino now o c s ob in
+      r_par s' = r_par s /\ r_flags s' = r_flags s /\ length (r_fs s') = length (r_fs s)
+      /\ (forall j n, (j, n) <> (ob_disk ob, ob_name ob) -> fs_find (r_fs s') j n = fs_find (r_fs s) j n)
+      /\ ((ob_kind ob = KHard -> fs_find (r_fs s) (ob_disk ob) (ob_to ob) <> None) -> r_unrec s' = r_unrec s).
+    Proof.
+      cbn zeta. unfold obj_step. destruct (ob_excl ob); [repeat split; auto|].
+      destruct (ob_kind ob) eqn:Ek.
+      - destruct (negb _); [repeat split; auto|]. rewrite Hfix.
+        destruct (find_cfile c (ob_disk ob) (ob_name ob)); cbn; (repeat split; auto; try apply fs_put_length; try (intros j n Hne; apply fs_find_put_other; exact Hne)).
+      - rewrite Hfix. destruct (fs_find (r_fs s) (ob_disk ob) (ob_to ob)) as [t|].
+        + destruct (fs_find (r_fs s) (ob_disk ob) (ob_name ob)) as [l|].
+          * destruct (negb (N.eqb (ff_inode l) (ff_inode t))); cbn; (repeat split; auto; try apply fs_put_length; try (intros j n Hne; apply fs_find_put_other; exact Hne)).
+          * cbn; (repeat split; auto; try apply fs_put_length; try (intros j n Hne; apply fs_find_put_other; exact Hne)).
+        + destruct (fs_find (r_fs s) (ob_disk ob) (ob_name ob)); cbn; (split; [reflexivity|]; split; [reflexivity|]; split; [reflexivity|]; split; [auto|]; intro H; exfalso; apply (H eq_refl); reflexivity).
+      - destruct (ob_stat ob); [repeat split; auto|]. rewrite Hfix. cbn. repeat split; auto.
+      - destruct (ob_stat ob); [repeat split; auto|]. rewrite Hfix. cbn. repeat split; auto.
+    Qed.
+
+    Lemma rinv_obj s ob :
+      rinv bm s ->
+      (forall p f i b, slot_of c p (ob_disk ob) = SFile f i b -> cf_name f <> ob_name ob) ->
+      (ob_kind ob = KHard -> exists p f i b, slot_of c p (ob_disk ob) = SFile f i b /\ cf_name f = ob_to ob) ->
+      rinv bm (obj_step newino now o c s ob) /\ r_flags (obj_step newino now o c s ob) = r_flags s.
+    Proof.
+      intros I Hnames Hhard. destruct (obj_step_frame s ob) as [F1 [F2 [F3 [F4 F5]]]].
+      set (s' := obj_step newino now o c s ob) in *. split; [|exact F2].
+      constructor.
+      - rewrite F3. apply (ri_len bm s I).
+      - rewrite F1. apply (ri_parlen bm s I).
+      - rewrite F5; [apply (ri_unrec bm s I)|]. intro Hk. destruct (Hhard Hk) as [p [f [i [b [Hs En]]]]].
+        destruct (ri_files bm s I p (ob_disk ob) f i b Hs) as [_ [Hlt _]].
+        destruct (Hlt (g_bm bs c bm Hgeom p _ f i b Hs)) as [_ Hsz].
+        destruct (g_wf bs c bm Hgeom p _ f i b Hs) as [Hl _].
+        unfold fsz in Hsz. rewrite En in Hsz. destruct (fs_find (r_fs s) (ob_disk ob) (ob_to ob)); [discriminate | lia].
+      - intro key. rewrite F2. apply (ri_dam bm s I).
+      - intros p j f i b Hs.
+        assert (E : fs_find (r_fs s') j (cf_name f) = fs_find (r_fs s) j (cf_name f)).
+        { apply F4. intro X. injection X as X1 X2. subst j. apply (Hnames p f i b Hs). exact X2. }
+        unfold fsz, fblk. rewrite E. apply (ri_files bm s I p j f i b Hs).
+      - intros p l. rewrite F1. apply (ri_par bm s I).
+    Qed.
+
+    Variable objs : list obj.
+    (* the empty files / links do not bear the name of a file with blocks of the same disk; a hard link points to a file with blocks *)
+    Hypothesis Hobj_names : forall ob p f i b, In ob objs -> slot_of c p (ob_disk ob) = SFile f i b -> cf_name f <> ob_name ob.
+    Hypothesis Hobj_hard : forall ob, In ob objs -> ob_kind ob = KHard ->
+                                      exists p f i b, slot_of c p (ob_disk ob) = SFile f i b /\ cf_name f = ob_to ob.
+
+    Lemma rinv_objs : forall l s, incl l objs -> rinv bm s ->
+      rinv bm (fold_left (obj_step newino now o c) l s) /\ r_flags (fold_left (obj_step newino now o c) l s) = r_flags s.
+    Proof.
+      induction l as [|ob t IH]; intros s Hin I; [split; [exact I | reflexivity]|]. cbn [fold_left].
+      assert (Hob : In ob objs) by (apply Hin; left; reflexivity).
+      destruct (rinv_obj s ob I (fun p f i b => Hobj_names ob p f i b Hob) (Hobj_hard ob Hob)) as [I' E'].
+      destruct (IH _ (fun x Hx => Hin x (or_intror Hx)) I') as [I'' E'']. split; [exact I'' | congruence].
+    Qed.
+
+    Lemma rinv_restored s : rinv bm s -> restored nlev c bm vs (r_fs s) (r_par s).
+    Proof.
+      intro I. split; [apply (ri_len bm s I)|]. split.
+      - intros p j f i b Hs. destruct (ri_files bm s I p j f i b Hs) as [Hz [Hlt _]].
+        destruct (Hlt (g_bm bs c bm Hgeom p j f i b Hs)) as [Hb Hsz].
+        destruct (g_wf bs c bm Hgeom p j f i b Hs) as [Hl _].
+        destruct (g_last bs c bm Hgeom p j f i b Hs) as [p' [i' [b' [Hs' [_ Hend]]]]].
+        destruct (ri_files bm s I p' j f i' b' Hs') as [_ [Hlt' _]].
+        destruct (Hlt' (g_bm bs c bm Hgeom p' j f i' b' Hs')) as [_ Hsz'].
+        unfold fsz, fblk in *. destruct (fs_find (r_fs s) j (cf_name f)) as [g|]; [|lia].
+        exists g. repeat split; auto. lia.
+      - intros p l Hp Hl. apply (ri_par bm s I p l); assumption.
+    Qed.
+
+    Hypothesis Hbm : c_blockmax c = bm.
+
+    (* C01 for the whole run *)
+    Theorem fix_run_restores :
+      let out := check_run hashf padz truncf bs nlev reduced newino now o c par fs0 objs (seq 0 bm) in
+      restored nlev c bm vs (r_fs (out_st out)) (r_par (out_st out))
+      /\ out_fail out = false
+      /\ r_unrec (out_st out) = 0
+      /\ (forall key, fl_damaged (get_fl (r_flags (out_st out)) key) = false)
+      /\ length (r_par (out_st out)) = length par.
+    Proof.
+      cbn zeta. rewrite (check_run_unfold o c par fs0 objs bm Hbm). cbv zeta. fold s0.
+      pose proof (rinv_loop bm (le_n bm)) as I1. pose proof (finv_loop bm (le_n bm)) as J1.
+      set (s1 := fold_left (fun s pos => if block_enabled nlev o c pos then stripe_step o c fs0 s pos else s) (seq 0 bm) s0) in *.
+      destruct (rinv_objs objs s1 (fun x H => H) I1) as [I2 E2].
+      set (s2 := fold_left (obj_step newino now o c) objs s1) in *.
+      assert (Ec : cleanup o s2 = s2).
+      { apply cleanup_noop. intros k f Hin. rewrite E2 in Hin. destruct J1 as [Hnd Hcr].
+        pose proof (get_fl_in (r_flags s1) k f Hnd Hin) as Eg.
+        destruct (fl_created f) eqn:Ecr; [|reflexivity]. cbn [andb].
+        destruct (Hcr k ltac:(rewrite Eg; exact Ecr)) as [Hf|[p [j [f' [i [b [Hp [Hs _]]]]]]]].
+        - rewrite Eg in Hf. rewrite Hf. reflexivity.
+        - pose proof (g_bm bs c bm Hgeom p j f' i b Hs). lia. }
+      rewrite Ec. cbn [out_st out_fail]. rewrite Hfix.
+      split; [apply rinv_restored; exact I2|]. rewrite (ri_unrec bm s2 I2). split; [reflexivity|]. split; [reflexivity|].
+      split; [apply (ri_dam bm s2 I2) | apply (ri_parlen bm s2 I2)].
     Qed.
   End FixLoop.
 End Run.
